@@ -59,4 +59,5 @@ V_OBJ = [
     {"a": 1, "b": 2, "c": 3}, {"a": 1, "c": 3}, {"c": 1, "a": 2, "b": 3}, {"d": 1},
     [1, "a"], [1, "a", 2], [1, "a", "b"], [1], ["a", 1], [[1.5, 2], []], [1, True], [1, True, None], [3, 1], [1, 1],
     [{"a": 1, "b": "s"}], [{"inner": {"w": "x"}}],
+    {"num": 1}, {"num": 2, "base": {"a": 5}, "sub": {"class": 1}}, {"num": 1.5, "sub": {}}, {"n": 3, "o": {"x y": 2}}, {"n": 3, "o": {}}, {"n": -1},
 ]
